@@ -57,6 +57,7 @@ func fixtureCsv(i int) uint32 {
 type checker struct {
 	run     *evid.Run
 	verbose bool // replay mode: print INFO lines
+	noProd  bool // development aid (VERIF_C05_NOPROD=1): skip the production-path family
 
 	states        atomic.Int64 // OnState invocations (= distinct canonical states)
 	nontrivial    atomic.Int64 // states where >=1 HTLC output spend was validated
@@ -79,10 +80,26 @@ type checker struct {
 	midSteps atomic.Int64 // probe>X mid-step situations judged
 	// scenarios actually validated that contained >=1 HTLC output spend
 	scenWithHtlc atomic.Int64
+
+	// production-path family (prod_test.go)
+	handlesLoaded          atomic.Int64 // second handles loaded along histories
+	prodArb                atomic.Int64 // from-disk ForceClose(skip) commitments executed against the funding output
+	prodDeliveries         atomic.Int64 // (state, node, handle, confirmed commitment) derivations through a watcher handle
+	prodIdentical          atomic.Int64 // ... whose resolutions equal the live-object ones (verdict carries over)
+	prodJudged             atomic.Int64 // ... that differ and were judged separately by the full oracle
+	prodMemoHits           atomic.Int64
+	prodAnchorsJudged      atomic.Int64 // CPFP anchors of the from-disk object run through the interpreter
+	prodNanos              atomic.Int64
+	tFetch, tArb, tRefresh atomic.Int64
+	prodCells              *evid.Counter // type|role|handle age|confirmed commitment
+	prodOutcome            *evid.Counter
+	// lopsided family: scenarios in which the explorer expects NO balance output of the node
+	noBalOut atomic.Int64
 }
 
 func newChecker(run *evid.Run) *checker {
-	return &checker{run: run, classes: evid.NewCounter(), witTypes: evid.NewCounter(), samples: evid.NewSamples(9)}
+	return &checker{run: run, classes: evid.NewCounter(), witTypes: evid.NewCounter(), samples: evid.NewSamples(9),
+		prodCells: evid.NewCounter(), prodOutcome: evid.NewCounter()}
 }
 
 type claim struct {
@@ -99,11 +116,16 @@ type scen struct {
 	i     int    // node under test
 	owner int    // owner of the commitment that confirms
 	kind  string // own | remote-current | remote-pending
-	mid   bool   // checked between the node's ReceiveNewCommitment and RevokeCurrentCommitment
-	st    *chanstate.OpenChannel
-	cm    *channeldb.ChannelCommitment
-	tx    *wire.MsgTx
-	txid  chainhash.Hash
+	// variant is empty for resolutions derived from the live channel object, and
+	// "+handle(<age>)" for resolutions derived the way a running lnd derives them
+	// (production-path family, prod_test.go): second OpenChannel handle of a given
+	// age, refreshed as contractcourt.newChainSet does.
+	variant string
+	mid     bool // checked between the node's ReceiveNewCommitment and RevokeCurrentCommitment
+	st      *chanstate.OpenChannel
+	cm      *channeldb.ChannelCommitment
+	tx      *wire.MsgTx
+	txid    chainhash.Hash
 
 	hasCLTV     bool // lease channel and node i is the initiator
 	leaseExpiry uint32
@@ -114,16 +136,20 @@ type scen struct {
 	used     map[wire.OutPoint]string
 	claimed  []claim
 	htlcOuts int
-	items    []string
-	failed   bool
+	// set by expected(): does the explorer expect a balance output of node i on the
+	// confirming commitment, and how many untrimmed HTLC outputs (either direction)
+	expBalOut   bool
+	expHtlcOuts int
+	items       []string
+	failed      bool
 }
 
 // label is the scenario kind as it appears in signatures and outcome classes.
 func (s *scen) label() string {
 	if s.mid {
-		return s.kind + "@mid-step"
+		return s.kind + s.variant + "@mid-step"
 	}
-	return s.kind
+	return s.kind + s.variant
 }
 
 func (s *scen) bad(item, failure, format string, a ...any) {
@@ -334,6 +360,7 @@ func (s *scen) threshold(by int) int64 {
 // expected computes, from the explorer's own HTLC table and dust rules, what node i
 // can claim when this commitment confirms.
 func (s *scen) expected() (exp []claim, balSat, htlcSat, feeSat, dustSat int64, ok bool) {
+	s.expBalOut, s.expHtlcOuts = false, 0
 	balSat = int64(s.cm.LocalBalance) / 1000 // node i's balance (C01 proves it equals the HTLC history)
 	if balSat >= s.w.Dust(s.owner) {
 		k := "to-remote"
@@ -341,6 +368,7 @@ func (s *scen) expected() (exp []claim, balSat, htlcSat, feeSat, dustSat int64, 
 			k = "to-local"
 		}
 		exp = append(exp, claim{k, balSat})
+		s.expBalOut = true
 	} else {
 		dustSat += balSat
 	}
@@ -357,6 +385,7 @@ func (s *scen) expected() (exp []claim, balSat, htlcSat, feeSat, dustSat int64, 
 			dustSat += sat
 			continue
 		}
+		s.expHtlcOuts++
 		offeredByMe := in.By == s.i
 		switch {
 		case s.kind == "own" && offeredByMe:
@@ -715,6 +744,10 @@ func (s *scen) finish(exp []claim, balSat, htlcSat, feeSat, dustSat int64) {
 		ws += c.Value
 	}
 	s.c.valueChecks.Add(1)
+	if !s.expBalOut {
+		s.c.noBalOut.Add(1)
+		s.c.classes.Add(s.typ + "/" + s.label() + "/no-balance-output")
+	}
 	if fmt.Sprint(got) != fmt.Sprint(want) {
 		s.bad("value", "claimable-differs", "validly claimable outputs %v (sum %d sat) differ from balance %d + HTLCs %d - second-level fees %d - dust %d = %v (sum %d sat)", got, gs, balSat, htlcSat, feeSat, dustSat, want, ws)
 		return
@@ -804,9 +837,9 @@ func (c *checker) seen(w *chanmc.World, full bool, i int, kind string, cm *chann
 	return false
 }
 
-func (c *checker) newScen(w *chanmc.World, i, owner int, kind string, mid bool, cm *channeldb.ChannelCommitment) *scen {
+func (c *checker) newScen(w *chanmc.World, i, owner int, kind, variant string, mid bool, cm *channeldb.ChannelCommitment) *scen {
 	st := w.Chan(i).State()
-	s := &scen{c: c, w: w, typ: w.P.Type, ct: w.ChanType(), i: i, owner: owner, kind: kind, mid: mid, st: st, cm: cm,
+	s := &scen{c: c, w: w, typ: w.P.Type, ct: w.ChanType(), i: i, owner: owner, kind: kind, variant: variant, mid: mid, st: st, cm: cm,
 		utxo: map[wire.OutPoint]*wire.TxOut{}, used: map[wire.OutPoint]string{}}
 	if s.ct.HasLeaseExpiration() {
 		s.leaseExpiry = fixtureThaw
@@ -833,7 +866,7 @@ func (c *checker) newScen(w *chanmc.World, i, owner int, kind string, mid bool, 
 func (c *checker) ownClose(w *chanmc.World, i int, mid bool) (s *scen) {
 	st := w.Chan(i).State()
 	cm := st.LocalCommitment
-	s = c.newScen(w, i, i, "own", mid, &cm)
+	s = c.newScen(w, i, i, "own", "", mid, &cm)
 	if s.failed {
 		return
 	}
@@ -842,30 +875,46 @@ func (c *checker) ownClose(w *chanmc.World, i int, mid bool) (s *scen) {
 		s.bad("force-close", "error", "ForceClose failed: %v", err)
 		return
 	}
-	s.tx = sum.CloseTx
-	s.txid = s.tx.TxHash()
-	if cm.CommitTx == nil || s.txid != cm.CommitTx.TxHash() {
-		s.bad("commitment", "not-latest", "ForceClose returned a transaction that is not the stored latest commitment")
-		return
-	}
-	if len(s.tx.TxIn) != 1 || s.tx.TxIn[0].PreviousOutPoint != st.FundingOutpoint {
-		s.bad("commitment", "wrong-input", "commitment does not spend the funding outpoint")
-		return
-	}
-	s.utxo[st.FundingOutpoint] = w.Chan(i).FundingTxOut()
-	if err := s.exec(s.tx, 0); err != nil {
-		s.bad("commitment", "script-invalid", "signed commitment is rejected by the script interpreter against the funding output: %v", err)
-		return
-	}
-	s.ok("commitment", s.utxo[st.FundingOutpoint].Value)
-	s.addOutputs(s.tx)
-	exp, bal, hs, fs, ds, okE := s.expected()
-	if !okE {
-		return
-	}
 	res, errR := sum.ContractResolutions.UnwrapOrErr(fmt.Errorf("none"))
 	if errR != nil {
 		s.bad("resolutions", "missing", "ForceClose returned no contract resolutions")
+		return
+	}
+	s.judgeOwn(sum.CloseTx, &res)
+	return
+}
+
+// ownCommitment validates the signed commitment tx against the funding output and
+// registers its outputs.
+func (s *scen) ownCommitment(tx *wire.MsgTx) bool {
+	st := s.st
+	s.tx = tx
+	s.txid = s.tx.TxHash()
+	if s.cm.CommitTx == nil || s.txid != s.cm.CommitTx.TxHash() {
+		s.bad("commitment", "not-latest", "ForceClose returned a transaction that is not the stored latest commitment")
+		return false
+	}
+	if len(s.tx.TxIn) != 1 || s.tx.TxIn[0].PreviousOutPoint != st.FundingOutpoint {
+		s.bad("commitment", "wrong-input", "commitment does not spend the funding outpoint")
+		return false
+	}
+	s.utxo[st.FundingOutpoint] = s.w.Chan(s.i).FundingTxOut()
+	if err := s.exec(s.tx, 0); err != nil {
+		s.bad("commitment", "script-invalid", "signed commitment is rejected by the script interpreter against the funding output: %v", err)
+		return false
+	}
+	s.ok("commitment", s.utxo[st.FundingOutpoint].Value)
+	s.addOutputs(s.tx)
+	return true
+}
+
+// judgeOwn judges the resolutions res for the node's own signed commitment tx.
+func (s *scen) judgeOwn(tx *wire.MsgTx, res *lnwallet.ContractResolutions) {
+	if !s.ownCommitment(tx) {
+		return
+	}
+	exp, bal, hs, fs, ds, okE := s.expected()
+	if !okE {
 		return
 	}
 	if res.CommitResolution != nil {
@@ -873,7 +922,7 @@ func (c *checker) ownClose(w *chanmc.World, i int, mid bool) (s *scen) {
 			s.bad("to-local", "outpoint-missing", "SelfOutPoint %v is not on the commitment", res.CommitResolution.SelfOutPoint)
 			return
 		}
-		s.commitOutput(res.CommitResolution, "to-local", fixtureCsv(i))
+		s.commitOutput(res.CommitResolution, "to-local", fixtureCsv(s.i))
 	}
 	if res.HtlcResolutions != nil {
 		for x := range res.HtlcResolutions.OutgoingHTLCs {
@@ -887,25 +936,38 @@ func (c *checker) ownClose(w *chanmc.World, i int, mid bool) (s *scen) {
 	}
 	s.checkAnchor(res.AnchorResolution)
 	s.finish(exp, bal, hs, fs, ds)
-	return
 }
 
 func (s *scen) checkAnchor(res *lnwallet.AnchorResolution) {
 	if s.failed {
 		return
 	}
+	// BOLT-3: a party's anchor is on a commitment iff its balance output is, or the
+	// commitment carries at least one untrimmed HTLC. Both facts come from the
+	// explorer's own table (expected()).
+	want := s.ct.HasAnchors() && (s.expBalOut || s.expHtlcOuts > 0)
 	switch {
-	case s.ct.HasAnchors() && res == nil:
-		// With 5 BTC on each side the node's anchor always exists.
-		s.bad("anchor", "missing", "anchor channel, but no anchor resolution was produced")
+	case want && res == nil:
+		s.bad("anchor", "missing", "anchor channel and the node has a balance output (%v) or HTLC outputs (%d) on the commitment, but no anchor resolution was produced", s.expBalOut, s.expHtlcOuts)
 	case !s.ct.HasAnchors() && res != nil:
 		s.bad("anchor", "unexpected", "non-anchor channel produced an anchor resolution")
-	case res != nil:
+	case !want && res != nil:
+		s.bad("anchor", "unexpected", "the node has neither a balance output nor an HTLC output on the commitment, yet an anchor resolution names %v", res.CommitAnchor)
+	case res == nil:
+		if s.ct.HasAnchors() {
+			s.c.classes.Add(s.typ + "/" + s.label() + "/anchor-absent")
+		}
+	default:
 		if res.CommitAnchor.Hash != s.txid {
 			s.bad("anchor", "outpoint-missing", "anchor %v is not on the confirmed commitment", res.CommitAnchor)
 			return
 		}
 		s.anchor(res, "anchor")
+		if s.variant != "" {
+			// production-path variant: the pre-confirmation resolutions of the
+			// from-disk object are judged by prodPath itself
+			return
+		}
 		// LightningChannel.NewAnchorResolutions (used to CPFP before confirmation)
 		// must name the same anchor with an equally valid descriptor.
 		all, err := s.w.Chan(s.i).NewAnchorResolutions()
@@ -926,16 +988,44 @@ func (s *scen) checkAnchor(res *lnwallet.AnchorResolution) {
 // remoteClose: the counterparty's commitment cm (node i's own copy of it) confirms.
 func (c *checker) remoteClose(w *chanmc.World, i int, kind string, mid bool, cmIn channeldb.ChannelCommitment, commitPoint *btcec.PublicKey) (s *scen) {
 	cm := cmIn
-	s = c.newScen(w, i, 1-i, kind, mid, &cm)
+	s = c.newScen(w, i, 1-i, kind, "", mid, &cm)
 	if s.failed {
 		return
 	}
-	st := s.st
 	if cm.CommitTx == nil || commitPoint == nil {
 		s.bad("commitment", "not-stored", "no transaction / commitment point stored for the counterparty's %s commitment", kind)
 		return
 	}
-	s.tx = cm.CommitTx
+	sum, err := unilateralSummary(s.st, w.Signer(i), cm.CommitTx, cm, commitPoint)
+	if err != nil {
+		s.bad("close-summary", "error", "NewUnilateralCloseSummary failed: %v", err)
+		return
+	}
+	s.judgeRemote(cm.CommitTx, sum)
+	return
+}
+
+// unilateralSummary calls NewUnilateralCloseSummary for tx confirming at spendHeight.
+func unilateralSummary(st *chanstate.OpenChannel, signer input.Signer, tx *wire.MsgTx, cm channeldb.ChannelCommitment,
+	commitPoint *btcec.PublicKey) (*lnwallet.UnilateralCloseSummary, error) {
+
+	txid := tx.TxHash()
+	op := st.FundingOutpoint
+	spend := &chainntnfs.SpendDetail{
+		SpentOutPoint: &op, SpenderTxHash: &txid, SpendingTx: tx,
+		SpenderInputIndex: 0, SpendingHeight: spendHeight,
+	}
+	return lnwallet.NewUnilateralCloseSummary(
+		st, signer, spend, cm, commitPoint,
+		fn.Some[lnwallet.AuxLeafStore](&lnwallet.MockAuxLeafStore{}),
+		fn.None[lnwallet.AuxContractResolver](),
+	)
+}
+
+// judgeRemote judges a unilateral close summary for the counterparty's commitment tx.
+func (s *scen) judgeRemote(tx *wire.MsgTx, sum *lnwallet.UnilateralCloseSummary) {
+	st := s.st
+	s.tx = tx
 	s.txid = s.tx.TxHash()
 	if len(s.tx.TxIn) != 1 || s.tx.TxIn[0].PreviousOutPoint != st.FundingOutpoint {
 		s.bad("commitment", "wrong-input", "stored counterparty commitment does not spend the funding outpoint")
@@ -944,20 +1034,6 @@ func (c *checker) remoteClose(w *chanmc.World, i int, kind string, mid bool, cmI
 	s.addOutputs(s.tx)
 	exp, bal, hs, fs, ds, okE := s.expected()
 	if !okE {
-		return
-	}
-	txid := s.txid
-	spend := &chainntnfs.SpendDetail{
-		SpentOutPoint: &st.FundingOutpoint, SpenderTxHash: &txid, SpendingTx: s.tx,
-		SpenderInputIndex: 0, SpendingHeight: spendHeight,
-	}
-	sum, err := lnwallet.NewUnilateralCloseSummary(
-		st, w.Signer(i), spend, cm, commitPoint,
-		fn.Some[lnwallet.AuxLeafStore](&lnwallet.MockAuxLeafStore{}),
-		fn.None[lnwallet.AuxContractResolver](),
-	)
-	if err != nil {
-		s.bad("close-summary", "error", "NewUnilateralCloseSummary failed: %v", err)
 		return
 	}
 	var wantDelay uint32
@@ -983,7 +1059,6 @@ func (c *checker) remoteClose(w *chanmc.World, i int, kind string, mid bool, cmI
 	}
 	s.checkAnchor(sum.AnchorResolution)
 	s.finish(exp, bal, hs, fs, ds)
-	return
 }
 
 // nonDustRecorded counts HTLC outputs on a commitment record (only used to classify a
@@ -1040,6 +1115,11 @@ func (c *checker) checkState(w *chanmc.World, full bool) {
 			if s.htlcOuts > 0 {
 				c.scenWithHtlc.Add(1)
 			}
+		}
+		if !c.noProd {
+			tp := time.Now()
+			c.prodPath(w, i, full)
+			c.prodNanos.Add(int64(time.Since(tp)))
 		}
 	}
 	if htlcSpends > 0 {
